@@ -112,6 +112,22 @@ CHECKS = {
              "AMF-shaped source maps and validated with a profile producing results, traces and nested sub-results about all "
              "nodes; uri and the four numbers are compared, and the report is compared with that of the stripped graph.",
         ref="DESIGN.md §6 C14", technique="TLA+ lexical-index model + TLC-enumerated scenarios replayed into the validator"),
+    "C05": dict(
+        text="spec/JsonLd.tla models JSON-LD surface syntax (Serialise under an 11-dimension choice record, Denote back to a graph); "
+             "spec/ReserCases.tla is the state machine of rewrite actions (toggle one choice) and TLC visits every reachable "
+             "choice record for 3 canonical graphs (9216 states) checking Denote(Serialise(G,c)) = G and index stability on every "
+             "transition; each visited serialisation is written as real JSON-LD text and compared on two observables: the "
+             "@ids/@types index ProcessInput derives (vs Graph!IdsIndex/TypesIndex) and conforms + (severity, validation, focus, "
+             "message) set of a profile with count, value, nested, inverse-path, @type and pattern constraints (vs the canonical "
+             "serialisation).",
+        ref="DESIGN.md §6 C05", technique="TLA+ model of JSON-LD surface forms (TLC, exhaustive) replayed into ProcessInput/Validate"),
+    "C15": dict(
+        text="spec/Profile.tla separates a profile's spelling from its meaning (Abs forgets orders/styles and resolves compact IRIs "
+             "through declared and built-in prefixes); TLC checks that every walk of <=3 rewrite actions preserves Abs (and refutes "
+             "it for a rename that forgets the declaration); TLC-simulated walks of 6 rewrites (16 kinds) are applied to real "
+             "profile texts through yaml.v3 node manipulation - a purpose-built profile plus the repository's fixtures with their "
+             "own data - and conforms and the (severity, validation, focus, message) set are compared with the base.",
+        ref="DESIGN.md §6 C15", technique="TLA+ rewrite model (TLC) + simulated rewrite walks replayed on real profiles"),
 }
 
 NOT_YET = "no check registered yet for this property in the current state of the framework (design in DESIGN.md §6)"
